@@ -106,6 +106,10 @@ def persistNode (mem : G) (disk : G) (id : Nat) : G :=
   | some d => { disk with nodes := disk.nodes.put id d }
   | none => disk
 
+/-- The stored record is the **whole** entity — for a relationship its endpoints, its type and
+its properties (`EdgeD`) — and it replaces whatever was stored under the id: `GraphStore`
+recycles the ids of deleted entities, so the previous holder of the id may have been a
+different relationship between other nodes. -/
 def persistEdge (mem : G) (disk : G) (id : Nat) : G :=
   match mem.edges.get id with
   | some e => { disk with edges := disk.edges.put id e }
@@ -114,6 +118,14 @@ def persistEdge (mem : G) (disk : G) (id : Nat) : G :=
 /-- The durable image of a returned whole entity is **the state it has when the statement
 ends**, however many rows (or columns of one row) return it: `retN` / `retE` may repeat an id,
 every occurrence stores the same final state. -/
+/-- the defective variant "an id already stored is a property update": endpoints of the stored
+record are kept, only the opaque content is replaced -/
+def persistEdgeKeepEndpoints (mem : G) (disk : G) (id : Nat) : G :=
+  match mem.edges.get id, disk.edges.get id with
+  | some e, some old => { disk with edges := disk.edges.put id { old with d := e.d } }
+  | some e, none => { disk with edges := disk.edges.put id e }
+  | none, _ => disk
+
 def persistReturned (mem disk : G) (retN retE : List Nat) : G :=
   retE.foldl (persistEdge mem) (retN.foldl (persistNode mem) disk)
 
